@@ -990,6 +990,78 @@ func ruleRepIntMap(c *Ctx, r *R) {
 			})
 		}
 		r.check(stops, "empty "+fn, c.Pos(fd), "the probe stops at a slot with distance == 0", fn+" does not stop its probe at an empty slot (distance == 0): a lookup of an absent key never ends or matches a stale slot")
+		// any other way to give up the probe is the robin-hood cut-off, and that one is strict:
+		// insert displaces a resident only when resident.distance < probe distance, so residents at
+		// the *same* distance stay ahead of the key — "resident.distance < d" (d = 1 at the home
+		// slot, +1 per step) proves the key absent, "<= d" does not
+		for _, h := range c.withHelpers(fd) {
+			ast.Inspect(h.Body, func(n ast.Node) bool {
+				ifs, ok := n.(*ast.IfStmt)
+				if !ok || len(ifs.Body.List) == 0 {
+					return true
+				}
+				switch last := ifs.Body.List[len(ifs.Body.List)-1].(type) {
+				case *ast.ReturnStmt:
+				case *ast.BranchStmt:
+					if last.Tok != token.BREAK {
+						return true
+					}
+				default:
+					return true
+				}
+				for _, cj := range conjuncts(ifs.Cond) {
+					be, ok := unparen(cj).(*ast.BinaryExpr)
+					if !ok {
+						continue
+					}
+					isDist := func(e ast.Expr) bool {
+						sel, ok := unparen(e).(*ast.SelectorExpr)
+						return ok && sel.Sel.Name == "distance"
+					}
+					var other ast.Expr
+					strict := false
+					switch {
+					case isDist(be.X) && (be.Op == token.LSS || be.Op == token.LEQ || be.Op == token.GTR || be.Op == token.GEQ):
+						other, strict = be.Y, be.Op == token.LSS
+					case isDist(be.Y) && (be.Op == token.LSS || be.Op == token.LEQ || be.Op == token.GTR || be.Op == token.GEQ):
+						other, strict = be.X, be.Op == token.GTR
+					default:
+						continue
+					}
+					if isDist(other) {
+						continue // comparing two residents (Delete's back-shift) is not a probe cut-off
+					}
+					if _, isConst := c.ConstInt(other); isConst {
+						continue // distance <= 1: "empty or at its home slot", the stop of the back-shift
+					}
+					// the other side: a counter that is 1 at the home slot and steps by one
+					counts := false
+					if id, ok := unparen(other).(*ast.Ident); ok {
+						for p := c.Parent(ifs); p != nil; p = c.Parent(p) {
+							f, ok := p.(*ast.ForStmt)
+							if !ok {
+								continue
+							}
+							if as, ok := f.Init.(*ast.AssignStmt); ok && len(as.Lhs) == 1 && len(as.Rhs) == 1 {
+								if lid, ok := as.Lhs[0].(*ast.Ident); ok && c.Obj(lid) == c.Obj(id) {
+									if v, ok := c.ConstInt(as.Rhs[0]); ok && v == 1 {
+										if inc, ok := f.Post.(*ast.IncDecStmt); ok && inc.Tok == token.INC {
+											if pid, ok := unparen(inc.X).(*ast.Ident); ok && c.Obj(pid) == c.Obj(id) {
+												counts = true
+											}
+										}
+									}
+								}
+							}
+							break
+						}
+					}
+					r.check(strict && counts, "probe cut-off "+fn, c.Pos(ifs), "the probe is given up only below the probe distance (strict)",
+						fn+" gives up its probe on `"+c.Src(cj)+"`: a resident at the same distance as the probe does not prove the key absent (insert keeps ties in place) — a field that shares its home slot with another field of the struct is treated as missing: `b.w = 3` is silently dropped and reads keep the zero value")
+				}
+				return true
+			})
+		}
 	}
 }
 
